@@ -109,6 +109,7 @@ pub fn dump_segment(seg: &SegmentReader, schema: &Schema, uid_field: &str) -> Re
         if let Some(opt) = record_option_of(ft) {
             let inv = seg.inverted_index(field).or_fail("dump:inverted_index")?;
             let mut stream = inv.terms().stream().or_fail("dump:term_stream")?;
+            let mut reused: [Option<tantivy::postings::BlockSegmentPostings>; 3] = [None, None, None];
             while stream.advance() {
                 let key = stream.key().to_vec();
                 let ti = stream.value().clone();
@@ -127,7 +128,9 @@ pub fn dump_segment(seg: &SegmentReader, schema: &Schema, uid_field: &str) -> Re
                 let mut postings = inv.read_postings_from_terminfo(&ti, opt).or_fail("dump:read_postings")?;
                 let mut positions = vec![];
                 let mut d = postings.doc();
+                let mut all_docs: Vec<u32> = vec![];
                 while d != TERMINATED {
+                    all_docs.push(d);
                     if let Some(dd) = per_doc.get_mut(&d) {
                         let tf = if opt.has_freq() { postings.term_freq() } else { 0 };
                         positions.clear();
@@ -137,6 +140,34 @@ pub fn dump_segment(seg: &SegmentReader, schema: &Schema, uid_field: &str) -> Re
                         dd.terms.push((name.clone(), key.clone(), tf, positions.clone()));
                     }
                     d = postings.advance();
+                }
+                // the same list once more through a block cursor that is *reused* from term to term (one cursor per record
+                // option, reset onto the next term after it has walked the previous list to its end)
+                let slot = match opt {
+                    IndexRecordOption::Basic => 0,
+                    IndexRecordOption::WithFreqs => 1,
+                    IndexRecordOption::WithFreqsAndPositions => 2,
+                };
+                match reused[slot].as_mut() {
+                    None => reused[slot] = Some(inv.read_block_postings_from_terminfo(&ti, opt).or_fail("dump:read_block_postings")?),
+                    Some(cursor) => inv.reset_block_postings_from_terminfo(&ti, cursor).or_fail("dump:reset_block_postings")?,
+                }
+                let cursor = reused[slot].as_mut().unwrap();
+                let mut via_blocks: Vec<u32> = vec![];
+                for _ in 0..(ti.doc_freq as usize / 64 + 4) {
+                    let docs = cursor.docs();
+                    if docs.is_empty() {
+                        break;
+                    }
+                    via_blocks.extend_from_slice(docs);
+                    cursor.advance();
+                }
+                if via_blocks != all_docs {
+                    let pos = via_blocks.iter().zip(all_docs.iter()).position(|(a, b)| a != b).unwrap_or(via_blocks.len().min(all_docs.len()));
+                    return Err(Failure::new(
+                        "dump:reused_block_cursor_differs",
+                        format!("field {name} term {key:?}: a block cursor reset onto this term yields {} docs, the postings {}; first difference at #{pos}: {:?} vs {:?}", via_blocks.len(), all_docs.len(), via_blocks.get(pos), all_docs.get(pos)),
+                    ));
                 }
             }
         }
